@@ -55,6 +55,10 @@ def gen(rng, tier):
                         data = elfgen.patch(data, meta, "shdr", "sh_type", 8, lk)
                     elif lk < len(hs) and hs[lk]:
                         data = elfgen.patch(data, meta, "shdr", "sh_flags", hs[lk]["sh_flags"] | 0x800, lk)
+        if hs and rng.random() < 0.12:         # a hash section too short for its header: find_common_data must fail as a whole
+            for k, h in enumerate(hs):
+                if h and h["sh_type"] in (5, 0x6ffffff6):
+                    data = elfgen.patch(data, meta, "shdr", "sh_size", rng.choice([0, 4, 7] if h["sh_type"] == 5 else [0, 8, 15]), k)
         fam = filegen.fam_for(rng, meta["little"])
         names = [s["name"] for s in e.sections] + [b".shstrtab"]
         qn = list(dict.fromkeys(rng.sample(names, min(len(names), 4)) + [b".text", b".tex", b".text.h", b"absent", b"", b".symtab", b".gnu.hash"]))
